@@ -261,7 +261,13 @@ Definition judge_C08 : judge_t := fun m o ob pr =>
                 (* another client's token *)
                 if negb (same_probes m pr) then (Some "foreign_revocation_changed_something", [], [])
                 else if live && negb (String.eqb (o_err ob) "unauthorized_client") then (Some "foreign_revocation_not_refused", [], [])
+                else if negb live && (memn i (m_used_rt m) || memn i (m_dead_creds m) || memn (ci_family c) (m_dead m))
+                        && negb (String.eqb (o_err ob) "")
+                     then (Some "already_invalid_token_not_answered_with_success", [], [])
                 else (None, [], [])
+              else if negb live && (memn i (m_used_rt m) || memn i (m_dead_creds m) || memn (ci_family c) (m_dead m))
+                      && negb (String.eqb (o_err ob) "")
+                   then (Some "already_invalid_token_not_answered_with_success", [], [])
               else if String.eqb (o_err ob) "" then
                 if live then (None, [], i :: match ci_pair c with Some p => [p] | None => [] end)
                 else if (memn i (m_used_rt m) || memn i (m_dead_creds m) || memn (ci_family c) (m_dead m)) && negb (same_probes m pr)
